@@ -56,6 +56,8 @@ ASSUMPTIONS = [
 
 def unit_fn(unit):
     modname, prefix, L, kind = unit['module'], unit['prefix'], unit['L'], unit['kind']
+    if kind == 'check-subst':
+        kind = 'subst'
     E.install(common.REPO)
     E.CONFIG['K'] = 0
     E.CONFIG['cutpoints'] = True
@@ -95,9 +97,10 @@ def unit_fn(unit):
             isd = lambda c: z3.And(c >= 48, c <= 57)
             isl = lambda c: z3.And(c >= 65, c <= 90)
             if kind == 'subst':
-                x = E.symchar_in('x', DIG + UP)
+                x = E.symchar_in('x', unit.get('subst_alphabet') or (DIG + UP))
                 E.assume(x != ci)
-                E.assume(z3.Or(z3.And(isd(ci), isd(x)), z3.And(isl(ci), isl(x))))
+                if not unit.get('subst_alphabet'):
+                    E.assume(z3.Or(z3.And(isd(ci), isd(x)), z3.And(isl(ci), isl(x))))
                 chars2 = chars[:i] + [x] + chars[i + 1:]
             else:
                 cj = chars[i + 1]
